@@ -624,7 +624,7 @@ func ruleLanguages(p *Prog, r *Report, le *litEval, c langCfg) {
 		r.OK(rule, c.pkg+"."+c.constPrefix+"*", p.Pos(lv.Pos), fmt.Sprintf("all %d identifier constants index the entry whose tag they spell", nconst))
 	}
 	// round trip through NewLangID (model: an exact match in either segment wins, then the primary part is
-	// searched in segment 0, then in segment 1 — the exact-first shape itself is checked by R-LANGID):
+	// searched in segment 0, then in segment 1 — the exact-first shape itself is checked by R-LANGID, ruleLangID below):
 	// identifiers round-trip iff tags are unique over the whole table.
 	first := map[string]int{}
 	uniq := true
@@ -1058,4 +1058,90 @@ func lvLess(a, b *LV) bool {
 		}
 	}
 	return false
+}
+
+// ---- R-LANGID ----------------------------------------------------------------------------------------------------------
+
+// ruleLangID: the tag -> identifier search is exact-first. The table has two sorted segments and binarySearchLang falls
+// back to the primary part of the tag inside the segment it is given; a result of the segment-0 search may therefore be
+// returned only (a) on the true edge of a comparison of the found entry's tag with the searched tag (an exact match), or
+// (b) after the segment-1 search has run on every path (an exact entry there had its chance). Otherwise an identifier of
+// segment 1 whose primary part is listed in segment 0 does not round-trip — which R-TAB/lang's uniqueness argument assumes.
+func ruleLangID(p *Prog, r *Report) {
+	const rule = "R-LANGID"
+	f := p.Func("language", "", "NewLangID")
+	bs := p.Func("language", "", "binarySearchLang")
+	var first, second *ssa.Call
+	for _, c := range callsOf(f, bs) {
+		sl, ok := c.Common().Args[1].(*ssa.Slice)
+		if !ok {
+			undecided("R-LANGID: a binarySearchLang call of NewLangID is not given a slice of the table")
+		}
+		switch {
+		case sl.Low == nil && sl.High != nil && first == nil:
+			first = c
+		case sl.Low != nil && second == nil:
+			second = c
+		default:
+			undecided("R-LANGID: NewLangID no longer searches one low and one high segment")
+		}
+	}
+	if first == nil || second == nil {
+		undecided("R-LANGID: NewLangID no longer searches the two segments of the table with binarySearchLang")
+	}
+	fromFirst := func(v ssa.Value) bool {
+		return derivesFrom(v, func(x ssa.Value) bool {
+			ex, ok := x.(*ssa.Extract)
+			return ok && ex.Tuple == ssa.Value(first) && ex.Index == 0
+		}, 0)
+	}
+	fLang := p.Field("language", "languageInfo", "lang")
+	// exact-match tests: `entry.lang == l` with l the parameter
+	var exact []guard
+	for _, b := range f.Blocks {
+		iff := ifOf(b)
+		if iff == nil {
+			continue
+		}
+		bo, ok := iff.Cond.(*ssa.BinOp)
+		if !ok || bo.Op != token.EQL {
+			continue
+		}
+		isParam := func(v ssa.Value) bool { return v == ssa.Value(f.Params[0]) }
+		isTag := func(v ssa.Value) bool {
+			u, ok := v.(*ssa.UnOp)
+			return ok && u.Op == token.MUL && fieldOf(u.X) == fLang
+		}
+		if isParam(bo.X) && isTag(bo.Y) || isParam(bo.Y) && isTag(bo.X) {
+			exact = append(exact, guard{iff, false}) // site must be unreachable from the false edge
+		}
+	}
+	n := 0
+	for _, b := range f.Blocks {
+		for _, in := range b.Instrs {
+			ret, ok := in.(*ssa.Return)
+			if !ok || len(ret.Results) != 2 {
+				continue
+			}
+			if k, isC := ret.Results[1].(*ssa.Const); !isC || k.Value == nil || !constant.BoolVal(k.Value) {
+				continue
+			}
+			if !fromFirst(ret.Results[0]) {
+				continue
+			}
+			n++
+			key := fmt.Sprintf("%s/return#%d", p.FnName(f), n)
+			r.Instance(rule, key)
+			okExact := false
+			for _, g := range exact {
+				// guard semantics: the site is unreachable from the edge named by exhaustedTrue (here: the false edge)
+				if guardedBy(p, f, ret, g) {
+					okExact = true
+				}
+			}
+			okAfter, _ := mustPrecede(p, f, ret, func(x ssa.Instruction) bool { return x == ssa.Instruction(second) }, nil)
+			r.Check(okExact || okAfter, rule, key, p.IPos(ret), "a result of the search of the first segment is returned only for an exact match, or after the second segment was searched (exact-first: every identifier maps back to itself through its tag)")
+		}
+	}
+	r.Floor(rule, n, 1)
 }
